@@ -176,7 +176,8 @@ def narrow_configs(tier):
     one management operation, one macro event; depth 7-8 (bookkeeping that survives a management operation
     only shows after several further insertions)"""
     cfgs = []
-    mgmt = [('clearks',), ('clear',), ('dump',), ('raise', 0, 'Boom')] if tier == 'quick' else [('clearks',), ('clear',), ('dump',), ('raise', 0, 'Boom'), ('load',)]
+    # (no bulk load() here: C06 does not define a policy for entries the bookkeeping never saw, see DESIGN section 4)
+    mgmt = [('clearks',), ('clear',), ('dump',), ('raise', 0, 'Boom')]
     for mod in MODULES:
         for alg in BOUNDED:
             for ms in ((2,) if tier == 'quick' else (2, 3)):
